@@ -251,16 +251,37 @@ class PathCtx:
         self.add(conds[k])
         return k
 
-    def unique_value(self, z):
-        """If the path condition forces a single integer value for z, return it."""
+    def unique_value(self, z, small=128):
+        """Concrete integer for z: the single value the path condition allows, or - when at most
+        `small` values are possible - a complete case split over them."""
         r, m = self._check()
         if r != z3.sat:
             raise Unsupported("cannot concretize: path condition not sat")
+        i = len(self.decisions)
+        if i < len(self.prefix) and isinstance(self.prefix[i], tuple) and self.prefix[i][0] == "val":
+            v = self.prefix[i][1]
+            self.decisions.append(self.prefix[i])
+            self.add(z == v)
+            return v
         v = m.eval(z, model_completion=True)
-        r2, _ = self._check(z != v)
+        r2, m2 = self._check(z != v)
         if r2 == z3.unsat:
             return v.as_long()
-        raise Unsupported(f"symbolic value where a concrete integer is required: {z}")
+        vals = [v.as_long()]
+        excl = [z != v]
+        while r2 == z3.sat and len(vals) <= small:
+            v2 = m2.eval(z, model_completion=True)
+            vals.append(v2.as_long())
+            excl.append(z != v2)
+            r2, m2 = self._check(*excl)
+        if r2 != z3.unsat:
+            raise Unsupported(f"symbolic value where a concrete integer is required: {z}")
+        vals.sort()
+        for v2 in vals[:0:-1]:
+            self.alternatives.append(self.decisions + [("val", v2)])
+        self.decisions.append(("val", vals[0]))
+        self.add(z == vals[0])
+        return vals[0]
 
     def prove(self, z, timeout_ms=None):
         """Is z valid under the path condition?  -> ('valid'|'refuted'|'unknown', model)"""
